@@ -2,12 +2,12 @@
    For every well-formed state and every cut k < |image|, ReadFrom on the first k bytes returns
    an error: not success, not a panic. Unbounded in the state size; proved from two facts about
    each decoder: reading p successfully implies reading p ++ q gives the same result with q left
-   over, and decoders never panic. Proved: Count-Min, HyperLogLog, cuckoo filter, Top-K.
-   Bloom's binary image and all JSON documents: every strict prefix of the implementation's own
-   image is fed to ReadFrom / Import by the correspondence harness (exhaustive per state);
-   the JSON statement (every strict prefix of `{...}` is unbalanced) is not yet a theorem. *)
+   over, and decoders never panic. Proved: Count-Min, HyperLogLog, cuckoo filter, Top-K, Bloom.
+   JSON documents: every strict prefix of the implementation's own image is fed to Import by
+   the correspondence harness (exhaustive per state); the JSON statement (every strict prefix
+   of `{...}` is unbalanced) is not yet a theorem. *)
 From GX.Model Require Import Base CMS Bloom HLL Cuckoo Heap TopK Codec.
-From GX.Proofs Require Import ListLemmas CodecProofs.
+From GX.Proofs Require Import ListLemmas CodecProofs BloomCodec.
 
 Theorem C18_cms_truncated_rejected : forall s img k,
   cms_wf s -> enc_cms s = Ok img -> (k < length img)%nat -> exists t, dec_cms (firstn k img) = Err t.
@@ -27,7 +27,12 @@ Theorem C18_topk_truncated_rejected : forall p t img k,
   exists e, dec_topk (firstn k img) = Err e.
 Proof. exact topk_truncated_rejected. Qed.
 
+Theorem C18_bloom_truncated_rejected : forall f k,
+  bloom_cwf f -> (k < length (enc_bloom f))%nat -> exists t, dec_bloom (firstn k (enc_bloom f)) = Err t.
+Proof. exact bloom_truncated_rejected. Qed.
+
 Print Assumptions C18_cms_truncated_rejected.
 Print Assumptions C18_hll_truncated_rejected.
 Print Assumptions C18_cuckoo_truncated_rejected.
 Print Assumptions C18_topk_truncated_rejected.
+Print Assumptions C18_bloom_truncated_rejected.
